@@ -52,6 +52,7 @@ type alignOpts struct {
 	optimal    bool // compare with the Gotoh optimum
 	knownC10   bool // sub-optimal results that match the single-state model are the known finding
 	local      bool // also run Local (matrix must have non-positive gap scores and gap-open)
+	localScore bool // run Local and judge its score only (C09: any zero-gap-open matrix, gap scores of any sign)
 	snapshotM  bool
 	propForMsg string
 }
@@ -114,10 +115,13 @@ func alignCase(k *K, a, b []byte, m align.SubstitutionMatrix, o alignOpts) {
 			k.Count("global_optimal", 1)
 		}
 	}
-	if o.local {
+	if o.local || o.localScore {
 		lsteps, ai, bi, lscore := align.Local(a, b, m)
 		k.Count("local_calls", 1)
-		if o.validity {
+		if o.localScore && !o.local {
+			k.Count("local_any_sign_gap_calls", 1)
+		}
+		if o.validity && o.local {
 			if len(lsteps) == 0 {
 				if lscore != 0 {
 					k.Failf("local-empty-score", "Local returned no steps but score %v", lscore)
@@ -175,6 +179,11 @@ func smallScope(c *Ctx, base int64, alpha []byte, maxLen, nm int, gen func(r *ra
 			m, local := gen(k.Rand(), mi)
 			oo := o
 			oo.local = local
+			if o.localScore && !local {
+				oo.localScore = true
+			} else {
+				oo.localScore = false
+			}
 			oo.snapshotM = true
 			k.Input("matrix", matrixDesc(m))
 			for _, a := range strs {
@@ -431,6 +440,10 @@ func c08Shipped(c *Ctx) {
 
 func c09Gen(r *rand.Rand, mi int, alpha []byte) (align.SubstitutionMatrix, bool) {
 	local := mi%2 == 0
+	if mi%4 == 1 {
+		// gap scores of any sign: Local's score is still judged (localScore), see c09 units
+		local = false
+	}
 	sp := matSpec{alpha: alpha, gapOpen: 0, sym: r.IntN(2) == 0, scale: pick(r, scoreScales)}
 	if local {
 		sp.gapSign = -1
@@ -439,7 +452,7 @@ func c09Gen(r *rand.Rand, mi int, alpha []byte) (align.SubstitutionMatrix, bool)
 }
 
 func c09Small(c *Ctx) {
-	o := alignOpts{validity: true, optimal: true}
+	o := alignOpts{validity: true, optimal: true, localScore: true}
 	next := smallScope(c, 0, []byte("ab"), c.N(5, 6), c.N(40, 400), func(r *rand.Rand, mi int) (align.SubstitutionMatrix, bool) {
 		return c09Gen(r, mi, []byte("ab"))
 	}, o)
@@ -466,7 +479,7 @@ func c09Random(c *Ctx) {
 			k.Input("a", a)
 			k.Input("b", b)
 			k.Input("matrix", matrixDesc(m))
-			alignCase(k, a, b, m, alignOpts{validity: true, optimal: true, local: local})
+			alignCase(k, a, b, m, alignOpts{validity: true, optimal: true, local: local, localScore: !local})
 			if len(a) > 0 && len(b) > 0 {
 				k.Nontrivial(a, b, []byte(matrixString(m)))
 			}
